@@ -80,8 +80,9 @@ func regShow(es []regEntry) string {
 }
 
 type regEvents struct {
-	mu sync.Mutex
-	ev []string
+	mu   sync.Mutex
+	ev   []string
+	keys []string // subscription-change events with what they name: "+p:ce/cf->se/sf" / "-…" (see registry_data_test.go)
 }
 
 func (r *regEvents) HandleEvent(p api.EventPayload) {
@@ -108,6 +109,9 @@ func (r *regEvents) HandleEvent(p api.EventPayload) {
 	}
 	r.mu.Lock()
 	r.ev = append(r.ev, s)
+	if p.EventType == api.EventTypeSubscriptionChange {
+		r.keys = append(r.keys, regEventKey(p))
+	}
 	r.mu.Unlock()
 }
 
@@ -499,7 +503,7 @@ func regFunctionOf(typ int) (model.FunctionType, func(v int) (any, model.CmdType
 		}
 	case 4:
 		return model.FunctionTypeDeviceDiagnosisStateData, func(v int) (any, model.CmdType) {
-			d := &model.DeviceDiagnosisStateDataType{PowerSupplyCondition: util.Ptr(model.PowerSupplyConditionTypeGood)}
+			d := &model.DeviceDiagnosisStateDataType{PowerSupplyCondition: util.Ptr(model.PowerSupplyConditionTypeGood), VendorStateCode: util.Ptr(model.VendorStateCodeType(fmt.Sprint("n", v)))}
 			return d, model.CmdType{DeviceDiagnosisStateData: d}
 		}
 	case 100:
@@ -639,6 +643,7 @@ func runRegHistoryTd(r *h.Report, d *h.Driver, ev *regEvents, base int, ops []st
 	done := []string{ops[0]}
 	canonImpl := map[string]map[string]int{"subs": {}, "binds": {}}
 	canonModel := map[string]map[string]int{"subs": {}, "binds": {}}
+	wireShown := "" // the list a peer was sent over the wire in the current step ("" = none read)
 	for _, op := range ops[1:] {
 		f := strings.Fields(op)
 		if len(f) == 0 {
@@ -689,6 +694,8 @@ func runRegHistoryTd(r *h.Report, d *h.Driver, ev *regEvents, base int, ops []st
 			}
 		}
 		preS, preB := w.snapshot()
+		w.ev.takeKeys()
+		var stepKeys []string // the keyed subscription-change events of this step (sub / unsub)
 		w.out = nil
 		w.panicky = ""
 		if w.td != nil {
@@ -758,6 +765,18 @@ func runRegHistoryTd(r *h.Report, d *h.Driver, ev *regEvents, base int, ops []st
 				kind = "bind:" + impl
 			}
 			evs := w.ev.take()
+			stepKeys = w.ev.takeKeys()
+			if f[0] == "sub" {
+				// SPEC (C08): a granted request is announced by ONE add event that names the requesting device, the client
+				// feature and the server feature; a refused one by none
+				wantK := "[]"
+				if impl == "ok" {
+					wantK = fmt.Sprintf("[+%d:%s/%d->%s/%d]", p, ce, cf, se, sf)
+				}
+				if regList(stepKeys) != wantK {
+					r.SpecFail("C08/change-event-names-wrong-pair", done, fmt.Sprintf("%s answered %s, subscription-change events %v, expected %s", op, impl, stepKeys, wantK))
+				}
+			}
 			want := h.B2i(impl == "ok")
 			if evs[f[0]+"+"] != want {
 				r.SpecFail("C"+map[string]string{"sub": "08", "bind": "09"}[f[0]]+"/change-event", done, fmt.Sprintf("%s answered %s, %d add events", op, impl, evs[f[0]+"+"]))
@@ -822,6 +841,17 @@ func runRegHistoryTd(r *h.Report, d *h.Driver, ev *regEvents, base int, ops []st
 				r.SpecFail(prop+"/delete-touches-other-registry", done, op)
 			}
 			w.ev.take()
+			stepKeys = w.ev.takeKeys()
+			if f[0] == "unsub" {
+				// SPEC (C08): a successful delete is announced by ONE remove event naming the addressed pair, a failed one by none
+				wantK := "[]"
+				if impl == "ok" {
+					wantK = fmt.Sprintf("[-%d:%s/%d->%s/%d]", p, ce, cf, se, sf)
+				}
+				if regList(stepKeys) != wantK {
+					r.SpecFail("C08/change-event-names-wrong-pair", done, fmt.Sprintf("%s answered %s, subscription-change events %v, expected %s", op, impl, stepKeys, wantK))
+				}
+			}
 			regJudgeInvariants(r, done, postS, postB)
 			st.delAll++
 			st.delOk += h.B2i(exists)
@@ -1108,6 +1138,7 @@ func runRegHistoryTd(r *h.Report, d *h.Driver, ev *regEvents, base int, ops []st
 			if q > np {
 				continue
 			}
+			wireShown = ""
 			var api_ []regEntry
 			if f[0] == "subs" {
 				api_ = w.subsOf(q)
@@ -1134,16 +1165,17 @@ func runRegHistoryTd(r *h.Report, d *h.Driver, ev *regEvents, base int, ops []st
 					if c0.NodeManagementSubscriptionData != nil {
 						got = true
 						for _, e := range c0.NodeManagementSubscriptionData.SubscriptionEntry {
-							wire = append(wire, regEntry{id: uint64(*e.SubscriptionId), peer: q, ce: h.EntStr(e.ClientAddress.Entity), cf: uint(*e.ClientAddress.Feature), se: h.EntStr(e.ServerAddress.Entity), sf: uint(*e.ServerAddress.Feature)})
+							wire = append(wire, regEntry{id: uint64(*e.SubscriptionId), peer: regWirePeer(e.ClientAddress, e.ServerAddress), ce: h.EntStr(e.ClientAddress.Entity), cf: uint(*e.ClientAddress.Feature), se: h.EntStr(e.ServerAddress.Entity), sf: uint(*e.ServerAddress.Feature)})
 						}
 					}
 					if c0.NodeManagementBindingData != nil {
 						got = true
 						for _, e := range c0.NodeManagementBindingData.BindingEntry {
-							wire = append(wire, regEntry{id: uint64(*e.BindingId), peer: q, ce: h.EntStr(e.ClientAddress.Entity), cf: uint(*e.ClientAddress.Feature), se: h.EntStr(e.ServerAddress.Entity), sf: uint(*e.ServerAddress.Feature)})
+							wire = append(wire, regEntry{id: uint64(*e.BindingId), peer: regWirePeer(e.ClientAddress, e.ServerAddress), ce: h.EntStr(e.ClientAddress.Entity), cf: uint(*e.ClientAddress.Feature), se: h.EntStr(e.ServerAddress.Entity), sf: uint(*e.ServerAddress.Feature)})
 						}
 					}
 				}
+				wireShown = regShow(wire)
 				if !got || regShow(wire) != impl {
 					r.SpecFail(map[string]string{"subs": "C08", "binds": "C09"}[f[0]]+"/reported-list-differs", done, fmt.Sprintf("list sent to peer %d: %s (reply seen: %v), registry: %s", q, regShow(wire), got, impl))
 				}
@@ -1153,7 +1185,7 @@ func runRegHistoryTd(r *h.Report, d *h.Driver, ev *regEvents, base int, ops []st
 			if impl != "." {
 				kind += ":nonempty"
 			}
-		case "notify", "update", "write":
+		case "notify", "update", "write", "notifybad", "updatebad":
 			var se string
 			var sf uint
 			var p int
@@ -1173,10 +1205,23 @@ func runRegHistoryTd(r *h.Report, d *h.Driver, ev *regEvents, base int, ops []st
 			w.val++
 			data, cmd := mk(w.val)
 			accepted := true
+			storedBefore := w.regStored(se, sf, fn)
 			switch f[0] {
+			case "notifybad", "updatebad":
+				// a change of a function the feature does not have: refused, nothing stored, nobody notified
+				accepted = false
+				if lf := w.l.FeatureByAddress(h.FA("HEMS", regParseEnt(se), sf)); lf != nil {
+					if f[0] == "notifybad" {
+						lf.SetData(model.FunctionTypeMeasurementListData, &model.MeasurementListDataType{})
+					} else if e := lf.UpdateData(model.FunctionTypeMeasurementListData, &model.MeasurementListDataType{}, nil, nil); e == nil {
+						r.SpecFail("C08/change-of-missing-function-accepted", done, op)
+					}
+				}
 			case "notify":
 				if lf := w.l.FeatureByAddress(h.FA("HEMS", regParseEnt(se), sf)); lf != nil {
 					lf.SetData(fn, data)
+					// SetData has no result: a feature without that function (the client feature [1]/3) refuses
+					accepted = storedBefore != "none"
 				} else {
 					accepted = false
 				}
@@ -1208,6 +1253,34 @@ func runRegHistoryTd(r *h.Report, d *h.Driver, ev *regEvents, base int, ops []st
 			w.out = append(w.out, w.log.take()...)
 			w.settle()
 			ts := w.notifies(r, done, se, sf, fn)
+			// SPEC (C08): every notification carries the changed function and the data the feature holds for it
+			// after the change; a refused change leaves the stored data as it was
+			pays := w.notifyPayloads()
+			storedAfter := w.regStored(se, sf, fn)
+			for i, pl := range pays {
+				if pl != fmt.Sprintf("%d:%s", regFnID(fn), storedAfter) {
+					r.SpecFail("C08/fanout-data-is-not-the-stored-data", done, fmt.Sprintf("%s: notification %d carries %s, the feature holds %d:%s", op, i, pl, regFnID(fn), storedAfter))
+				}
+			}
+			if !accepted && storedAfter != storedBefore {
+				r.SpecFail("C08/refused-change-stored", done, fmt.Sprintf("%s was refused, the stored data changed from %s to %s", op, storedBefore, storedAfter))
+			}
+			if accepted && f[0] != "update" && regFnID(fn) != 100 && storedAfter != strconv.Itoa(w.val) {
+				r.SpecFail("C08/accepted-change-not-stored", done, fmt.Sprintf("%s was accepted with content %d, the feature holds %s", op, w.val, storedAfter))
+			}
+			if w.td == nil {
+				// correspondence with Spine.RegData: targets with payload, and the store after the op
+				rich := make([]string, len(ts))
+				for i := range ts {
+					rich[i] = ts[i] + "=" + pays[i]
+				}
+				if impl == "" {
+					impl = regList(rich)
+				}
+				if impl != "none" {
+					impl += " data=" + storedAfter
+				}
+			}
 			if impl == "" {
 				impl = regList(ts)
 			}
@@ -1302,6 +1375,25 @@ func runRegHistoryTd(r *h.Report, d *h.Driver, ev *regEvents, base int, ops []st
 			if impl != want {
 				r.Mismatch(done, impl, want, "registry op "+op)
 				return false
+			}
+			if (f[0] == "sub" || f[0] == "unsub") && w.td == nil {
+				// the subscription-change events of the call, with the device, client and server feature each names,
+				// against Spine.RegEv.callEvents
+				ie, me := regList(stepKeys), d.Ask("events")
+				if ie != me {
+					r.Mismatch(done, ie, me, "subscription-change events of "+op)
+					return false
+				}
+				r.Eval("events:"+f[0], "")
+			}
+			if (f[0] == "subs" || f[0] == "binds") && wireShown != "" && w.td == nil {
+				// the reply as sent over the wire against Spine.RegWire (ids by order of first appearance, as above)
+				wi, wm := regCanonIDs(wireShown, canonImpl[f[0]]), regCanonIDs(d.Ask("wire "+op), canonModel[f[0]])
+				if wi != wm {
+					r.Mismatch(done, wi, wm, "list sent over the wire, "+op)
+					return false
+				}
+				r.Eval("wire:"+f[0], "")
 			}
 		}
 	}
@@ -1513,6 +1605,23 @@ func genRegHistory(rng regRng, n, np int, faults bool) []string {
 	return ops
 }
 
+// regSprinkleBad: after some data changes of a history, a refused change of the same feature (a function it does not
+// have) through SetData / UpdateData, and a change of the client feature [1]/3, which has no function at all
+func regSprinkleBad(rng regRng, ops []string) []string {
+	var out []string
+	for _, op := range ops {
+		out = append(out, op)
+		f := strings.Fields(op)
+		if (f[0] == "notify" || f[0] == "update") && rng.Intn(3) == 0 {
+			out = append(out, fmt.Sprintf("%s %s %s", []string{"notifybad", "updatebad"}[rng.Intn(2)], f[1], f[2]))
+			if rng.Intn(3) == 0 {
+				out = append(out, []string{"notify 1 3", "update 1 3"}[rng.Intn(2)])
+			}
+		}
+	}
+	return out
+}
+
 // regObserve: the observations appended after a fault: every list of every peer, a change of every server feature
 func regObserve(np int) []string {
 	var ops []string
@@ -1569,6 +1678,9 @@ func TestRegistry(t *testing.T) {
 	defer func() { _ = spine.Events.Unsubscribe(ev) }()
 	d := h.StartDriver("drv_reg")
 	defer d.Close()
+	if a := d.Ask("rich"); a != "rich" {
+		panic("drv_reg: " + a)
+	}
 	base := h.Baseline()
 	st := &regStats{}
 	flags := probeRegFlags(r, ev, base)
@@ -1640,11 +1752,17 @@ func TestRegistry(t *testing.T) {
 	run([]string{"peers 3 late:2,3", "sub 1 1 1 1 1 1", "drop 1", "discover 2", "drop 2", "discover 3", "sub 3 1 1 1 1 1", "subs 3"})
 	// parent and child entities with identical feature numbers
 	run([]string{"peers 2", "sub 1 1 1 1 1 1", "sub 1 1.1 1 1 1 1", "bind 1 1.1 1 1 1 1", "sub 2 1.1 1 1 1 1", "dropent 1 1.1", "subs 1", "subs 2", "binds 1", "sub 1 1.1 1 1 1 1", "dropent 2 1", "subs 2", "notify 1 1"})
+	// the three data-change paths with payload: accepted and refused changes (a function the feature does not have, a
+	// feature without functions, a write that is not bound / not writable), the stored data after each
+	run([]string{"peers 3", "sub 1 1 1 1 1 1", "sub 2 1 1 1 1 1", "sub 3 1.1 1 1 1 1", "sub 1 1 2 1 2 2", "sub 2 2 1 2 2 4", "bind 2 1 1 1 1 1", "notify 1 1", "notifybad 1 1", "update 1 1", "updatebad 1 1",
+		"write 2 1 1 1 1", "write 1 1 1 1 1", "notify 1 1", "notify 1 2", "update 1 2", "notify 2 2", "update 2 2", "notifybad 2 2", "notify 1 3", "update 1 3", "notify 0 1", "update 0 1", "notify 0 0", "write 2 1 1 1 2",
+		"unsub 2 0 1 1 1 1", "write 2 1 1 1 1", "notify 1 1"})
 	rng := h.Rng(8)
+	rngBad := h.Rng(81)
 	hist := h.Scale(250, 2500)
 	for i := 0; i < hist; i++ {
 		np := 2 + rng.Intn(2)
-		run(genRegHistory(rng, 20+rng.Intn(40), np, true))
+		run(regSprinkleBad(rngBad, genRegHistory(rng, 20+rng.Intn(40), np, true)))
 	}
 	// fault enumeration (C10): a drop / entity removal at every position of a fault-free history
 	bases := h.Scale(14, 120)
